@@ -64,6 +64,32 @@ type setupDesc struct {
 	Setup bool `json:"setup_panic"`
 }
 
+// enumDesc: the code under test panicked in a statement of the enumeration itself (outside a guarded case);
+// replayed by re-executing the worker's case sequence from its start.
+type enumDesc struct {
+	EnumPanic bool `json:"enumeration_panic"`
+}
+
+// panicInLibrary: does the innermost non-runtime frame of a recovered panic's stack belong to the library under test?
+func panicInLibrary(stack string) bool {
+	lines := strings.Split(stack, "\n")
+	seenPanic := false
+	for _, l := range lines {
+		if strings.HasPrefix(l, "\t") || l == "" {
+			continue
+		}
+		if strings.HasPrefix(l, "panic(") {
+			seenPanic = true
+			continue
+		}
+		if !seenPanic || strings.HasPrefix(l, "runtime.") || strings.HasPrefix(l, "runtime/") {
+			continue
+		}
+		return strings.HasPrefix(l, "github.com/tobgu/qframe") && !strings.HasPrefix(l, "github.com/tobgu/qframe/verifseam")
+	}
+	return false
+}
+
 var registry = map[string]*Check{}
 
 func Register(c *Check) { registry[c.ID] = c }
@@ -116,6 +142,8 @@ type Ctx struct {
 }
 
 type prefixStop struct{}
+
+const enumPanicIndex = int64(1) << 50
 
 type violation struct {
 	Index   int64             `json:"index"`
@@ -456,7 +484,18 @@ func WorkerMain(id, tier string, shard, nshards int, outPath string) int {
 	func() {
 		defer func() {
 			if r := recover(); r != nil {
-				ctx.res.Panic = fmt.Sprintf("%v\n%s", r, debug.Stack())
+				st := string(debug.Stack())
+				if panicInLibrary(st) {
+					// the code under test panicked while the enumeration was preparing its cases: a violation,
+					// replayed by re-executing this worker's sequence
+					if len(st) > 3000 {
+						st = st[:3000]
+					}
+					ctx.counter = enumPanicIndex + 1
+					ctx.Report(enumDesc{EnumPanic: true}, &Failure{Msg: fmt.Sprintf("panic of the code under test in the enumeration (outside a case): %v\n%s", r, st)})
+					return
+				}
+				ctx.res.Panic = fmt.Sprintf("%v\n%s", r, st)
 			}
 		}()
 		if setupOK {
@@ -806,6 +845,10 @@ func ReplayMain(path string) int {
 		return 1
 	}
 	var fail *Failure
+	var ed enumDesc
+	if json.Unmarshal(rf.Desc, &ed) == nil && ed.EnumPanic && rf.Worker != nil {
+		return prefixReplay(path, chk, rf)
+	}
 	if os.Getenv("VERIF_REPLAY_PREFIX") == "1" && rf.Worker != nil {
 		return prefixReplay(path, chk, rf)
 	}
